@@ -809,7 +809,7 @@ def run_C19(run):
     run.count('argument_form_candidates', n_forms)
     n_inv = 0
     for bad in ("'dd.mm.yyyy'", "''", "'DD/MM/YYYY'", "'Dd/mm/yyyy'", "'mm/yyyy/dd'", "'dd/mm/yyy'", "'d/m/y'", "'dd/mm-yyyy'", "'dd/mm/yyyy '",
-                "['dd/mm/yyyy', 'x']", "[5]", "['dd/mm/yyyy', None]", "5", "('dd/mm/yyyy',)", "['DD-MM-YY']", "'yyyy/dd/mm'", "'dd mm yyyy'"):
+                "['dd/mm/yyyy', 'x']", "[5]", "['dd/mm/yyyy', None]", "[['dd/mm/yyyy']]", "[{}]", "[None, 'd/m/yy']", "[10, 'd/m/yy']", "[bytearray(b'd/m/yy')]", "['dd/mm/yyyy', 'D/M/YY']", "5", "('dd/mm/yyyy',)", "['DD-MM-YY']", "'yyyy/dd/mm'", "'dd mm yyyy'"):
         expr = f"Date({bad})"
         n_inv += 1
         try:
